@@ -37,6 +37,10 @@ var c07Tm = map[string]time.Duration{}
 
 var c07Base = time.Date(2021, 1, 1, 0, 0, 0, 0, time.UTC)
 
+// c07Tick is the unit of the start times of diamonds and splits: a quarter of a second, so that objects
+// started within one second are ordered by their start time all the same
+const c07Tick = 250 * time.Millisecond
+
 // c07Ret is one returned object: its descriptor key (store letter + key) and its sort field.
 type c07Ret struct {
 	key string
@@ -206,7 +210,7 @@ func c07Build(c *ctx, z c07Sizes, realAPI bool) *c07Scn {
 			did := c07Ksuid(r, sec)
 			s.dias[repo] = append(s.dias[repo], did)
 			dd := model.NewDiamondDescriptor(model.DiamondID(did))
-			dd.StartTime = c07Base.Add(time.Duration(dtimes[di]) * time.Second)
+			dd.StartTime = c07Base.Add(time.Duration(dtimes[di]) * c07Tick)
 			if realAPI || r.Intn(4) == 0 {
 				_, err := core.CreateDiamond(repo, e.Stores, core.DiamondDescriptor(dd))
 				c07Must(err)
@@ -228,7 +232,7 @@ func c07Build(c *ctx, z c07Sizes, realAPI bool) *c07Scn {
 					sid = "split-" + c07Name(r, "ab-", 2) + strconv.Itoa(si)
 				}
 				sd := model.NewSplitDescriptor(model.SplitID(sid))
-				sd.StartTime = c07Base.Add(time.Duration(stimes[si]) * time.Second)
+				sd.StartTime = c07Base.Add(time.Duration(stimes[si]) * c07Tick)
 				if realAPI && si < 3 {
 					_, err := core.CreateSplit(repo, did, e.Stores, core.SplitDescriptor(sd))
 					c07Must(err)
@@ -296,11 +300,11 @@ func c07Dump(c *ctx, s *c07Scn) {
 				case strings.HasPrefix(k, "diamonds/") && apc.SplitID == "" && strings.HasPrefix(apc.ArchiveFileName, "diamond-"):
 					var d model.DiamondDescriptor
 					c07Must(yaml.Unmarshal(raw, &d))
-					name, t, has = d.DiamondID, int(d.StartTime.Sub(c07Base)/time.Second), true
+					name, t, has = d.DiamondID, int(d.StartTime.Sub(c07Base)/c07Tick), true
 				case strings.HasPrefix(k, "diamonds/") && strings.HasPrefix(apc.ArchiveFileName, "split-"):
 					var d model.SplitDescriptor
 					c07Must(yaml.Unmarshal(raw, &d))
-					name, t, has = d.SplitID, int(d.StartTime.Sub(c07Base)/time.Second), true
+					name, t, has = d.SplitID, int(d.StartTime.Sub(c07Base)/c07Tick), true
 				}
 			}
 			s.idx[st.tag+k] = n
